@@ -347,4 +347,77 @@ theorem prefix_props (l : StrPos) : ∀ (cs : List Ch) (p : StrPos), Within l p 
       simp only [List.take_succ_cons, List.drop_succ_cons, advance]
       exact this
 
+/-! ## The length-limited counter of `put_string` accepts what the NUL-terminated counter of the flush accepts -/
+
+/-- `tickit_utf8_ncount(str, len, &pos, NULL)` (length limit = the length of the string, no other limit) succeeding
+    means the NUL-terminated decoding succeeds with the same characters. -/
+theorem countLoop_len (s : List UInt8) : ∀ (f off : Nat) (pos here r : StrPos), off ≤ s.length →
+    countLoop s none f off (some (s.length - off)) pos here = ⟨.ok, r⟩ →
+    ∃ cs, decodeFrom s f off = some cs ∧ r = advance here cs := by
+  intro f
+  induction f with
+  | zero =>
+    intro off pos here r _ h
+    simp [countLoop] at h
+  | succ g ih =>
+    intro off pos here r hoff h
+    unfold countLoop at h
+    by_cases hz : byteAt s off = 0
+    · simp only [hz, decide_true, Bool.or_true, if_true, CountRes.mk.injEq, true_and] at h
+      exact ⟨[], by unfold decodeFrom; simp [hz], by simp [advance, h]⟩
+    · have hlt : off < s.length := lt_length_of_byteAt_ne_zero s off hz
+      have hne : ¬ (some (s.length - off) = some 0) := by simp; omega
+      simp only [hne, hz, decide_false, Bool.or_self, Bool.false_eq_true, if_false] at h
+      cases hd : nextUtf8 s off (some (s.length - off)) with
+      | none => rw [hd] at h; simp at h
+      | some d =>
+        rw [hd] at h
+        simp only at h
+        have hd' : nextUtf8 s off none = some d :=
+          nextUtf8_congr s s off off _ none d hd (fun _ _ => rfl) (fun l hl => by cases hl)
+        have hle := nextUtf8_some_le_length s off _ d hd
+        by_cases hctrl : (d.cp < 0x20 || (d.cp ≥ 0x80 && d.cp < 0xa0)) = true
+        · rw [if_pos hctrl] at h; simp at h
+        · rw [if_neg hctrl] at h
+          by_cases hw : wcwidth d.cp = -1
+          · rw [if_pos hw] at h; simp at h
+          · rw [if_neg hw] at h
+            simp only [Bool.false_eq_true, if_false, Option.map_some] at h
+            rw [show s.length - off - d.n = s.length - (off + d.n) by omega] at h
+            have hblen : ((s.drop off).take d.n).length = d.n := by
+              simp only [List.length_take, List.length_drop]; omega
+            obtain ⟨cs', hcs', hr⟩ := ih (off + d.n) _ _ r hle h
+            refine ⟨⟨(s.drop off).take d.n, d.cp, wcwidth d.cp⟩ :: cs', ?_, ?_⟩
+            · unfold decodeFrom
+              simp only [hz, if_false, hd', hw]
+              rw [if_neg hctrl, hcs']
+              rfl
+            · rw [hr]
+              simp only [advance, stepPos, isG, hblen]
+
+/-- What `put_string` accepts (`tickit_utf8_ncount` over the whole string returns its columns), the flush can decode,
+    and the columns agree. -/
+theorem decode_of_stringColumns (s : List UInt8) (n : Int) (h : stringColumns s = some n) :
+    ∃ cs, decode s = some cs ∧ chCols cs = n := by
+  unfold stringColumns at h
+  simp only at h
+  cases hst : (ncountmore s (some s.length) {} none).status with
+  | ok =>
+    rw [hst] at h
+    simp only [Option.some.injEq] at h
+    unfold ncountmore at hst h
+    have hz : ({} : StrPos).bytes.toNat = 0 := rfl
+    simp only [hz, Option.map_some, Nat.sub_zero] at hst h
+    have hres : countLoop s none (s.length + 1) 0 (some (s.length - 0)) {} {} =
+        ⟨.ok, (countLoop s none (s.length + 1) 0 (some s.length) {} {}).pos⟩ := by
+      rw [Nat.sub_zero]
+      cases hc : countLoop s none (s.length + 1) 0 (some s.length) {} {} with
+      | mk st p => rw [hc] at hst; simp only at hst; rw [hst]
+    obtain ⟨cs, hcs, hr⟩ := countLoop_len s (s.length + 1) 0 {} {} _ (by omega) hres
+    refine ⟨cs, hcs, ?_⟩
+    rw [← h, hr, advance_columns]
+    simp
+  | err => rw [hst] at h; cases h
+  | fuel => rw [hst] at h; cases h
+
 end Tickit.RBFlush
